@@ -207,3 +207,61 @@ fn twin_splay() {
     }
     println!("TWIN-PASS splay: {} sequences (<= {} ops over {} keys)", count, DEPTH, KEYS);
 }
+
+/// U-S9 (C17, bounded stand-in): a reference handed out by a lookup still denotes the same element after a further
+/// restructuring lookup.  Bound: the trees built from the keys 1, 2, 3 in ascending / descending insertion order, reshaped
+/// by one symbolic lookup; then a reference is taken by a second symbolic lookup and must survive a third symbolic
+/// lookup of any kind.  (Object identity is outside the Verus model -- rules X2/X3 erase exactly the aliasing at stake.)
+#[cfg(kani)]
+fn refs_stable(order: [i32; 3]) {
+    let mut t = SplayTree::new(icmp);
+    t.insert(order[0], 10);
+    t.insert(order[1], 20);
+    t.insert(order[2], 30);
+    let q0: i32 = kani::any();
+    kani::assume(0 <= q0 && q0 < 5);
+    let _ = t.contains(&q0); // reshapes the tree
+    let q1: i32 = kani::any();
+    kani::assume(1 <= q1 && q1 <= 3);
+    kani::cover!(q0 == 3 && q1 == 3, "zig-zig-pending");
+    if let Some(kref) = t.find_key(&q1) {
+        let p = kref as *const i32;
+        let v0 = *kref;
+        assert!(v0 == q1);
+        let q2: i32 = kani::any();
+        kani::assume(0 <= q2 && q2 < 5);
+        match kani::any::<u8>() % 3 {
+            0 => {
+                let _ = t.get(&q2);
+            }
+            1 => {
+                let _ = t.next(&q2);
+            }
+            _ => {
+                let _ = t.prev(&q2);
+            }
+        }
+        // the element the first reference points to is still the same key ...
+        assert!(unsafe { *p } == v0, "C17: a handed-out reference still denotes the same element after a further lookup");
+        // ... and is still the tree's element for that key (same address)
+        let again = t.find_key(&v0).map(|k| k as *const i32);
+        assert!(again == Some(p), "C17: the element did not move");
+    } else {
+        assert!(false, "C17: stored key not found");
+    }
+    std::mem::forget(t);
+}
+
+#[cfg(kani)]
+#[kani::proof]
+#[kani::unwind(5)]
+fn splay_refs_stable_asc() {
+    refs_stable([1, 2, 3]);
+}
+
+#[cfg(kani)]
+#[kani::proof]
+#[kani::unwind(5)]
+fn splay_refs_stable_desc() {
+    refs_stable([3, 2, 1]);
+}
